@@ -11,9 +11,15 @@ def obligations(tier, seed):
            reach=["end", "err"], timeout=120, **H),
         Ob("parity", func="h_par", unwind=20, desc="odd parity encode/decode (single and block) == reference", encodes=["vbi_par8", "vbi_unpar8", "vbi_par", "vbi_unpar"],
            bounds="blocks of 4 bytes", reach=["end", "bad"], timeout=120, **H),
-        Ob("ham24", func="h_ham24", unwind=30, desc="Hamming 24/18: library encoder == reference for all 2^18 values; decode inverts; every single error (24 positions) corrected; every double error rejected",
+        Ob("ham24", func="h_ham24", unwind=30, desc="Hamming 24/18: library encoder == reference (closed form of the EN 300 706 8.3 parity equations) for all 2^18 values; decode inverts",
            encodes=["vbi_ham24p", "vbi_unham24p"], bounds="none", timeout=300, **H),
+        Ob("ham24_err1", func="h_ham24_err1", unwind=30, desc="Hamming 24/18: every single bit error (24 positions) of every code word is corrected to the transmitted 18 bits",
+           encodes=["vbi_unham24p"], bounds="none (error position enumerated by the runner: all 24 thorough, 6 quick; data symbolic)",
+           grid=[dict(B1SEL=b) for b in range(24)], quick_grid=[dict(B1SEL=b) for b in (0, 2, 7, 8, 16, 23)], timeout=600, **H),
+        Ob("ham24_err2", func="h_ham24_err2", unwind=30, desc="Hamming 24/18: every double bit error of every code word is rejected (negative result)",
+           encodes=["vbi_unham24p"], bounds="none (first error position enumerated by the runner: all 24 thorough, 4 quick; second position and data symbolic)",
+           grid=[dict(B1SEL=b) for b in range(24)], quick_grid=[dict(B1SEL=b) for b in (0, 7, 15, 23)], timeout=900, **H),
         Ob("bitrev", func="h_rev", unwind=20, desc="bit reversal tables == reference", encodes=["vbi_rev8", "vbi_rev16"], bounds="none", timeout=120, **H),
     ]
     p = packet_obs()
-    return prim + [p[k] for k in ("pagelink", "pagelink_any", "mot", "pop", "x27", "ait", "lop_parity")]
+    return prim + [p[k] for k in ("pagelink", "pagelink_any", "mot", "pop", "x27", "x2829", "ait", "lop_parity", "lop_parity_x26", "header", "header_badpage", "addr_error", "rows")]
